@@ -1,4 +1,6 @@
 import SJ.Props.C19
+import SJ.Props.C01Iff
 #print axioms SJ.Props.C19.runPrefix_feed
 #print axioms SJ.Props.C19.c19_captured_reparses
 #print axioms SJ.Props.C19.skipWs_prefix
+#print axioms SJ.Props.C01Iff.c19_skip_language
